@@ -110,8 +110,28 @@ func runSeek(r *core.Run) {
 		seen++
 		recv := fn.Params[0].Name()
 		off, wh := fn.Params[1].Name(), fn.Params[2].Name()
-		posAtom := recv + ".pos"
-		lenAtom := recv + ".f.Len()"
+		// roles: the position is the receiver field that Seek assigns; the total length is the `<recv>.<field>.Len()`
+		// call that appears in its guards
+		posAtom, lenAtom := "", ""
+		for _, st := range allStores(fn) {
+			if fa, ok := st.Addr.(*ssa.FieldAddr); ok && fa.X == ssa.Value(fn.Params[0]) && isIntType(st.Val.Type()) {
+				posAtom = canon(st.Addr)
+			}
+		}
+		for _, b := range fn.Blocks {
+			for _, in := range b.Instrs {
+				if c, ok := in.(*ssa.Call); ok && c.Call.IsInvoke() && c.Call.Method.Name() == "Len" && len(c.Call.Args) == 0 {
+					a := canon(c.Call.Value) + ".Len()"
+					if strings.HasPrefix(a, recv+".") {
+						lenAtom = a
+					}
+				}
+			}
+		}
+		if posAtom == "" || lenAtom == "" {
+			r.Unknown(recvName(fn)+".Seek roles", fn.Pos(), "cannot identify the position field and the total-length call of this Seek method")
+			continue
+		}
 		want := map[int64]Lin{
 			0: linAtom(off),
 			1: linAtom(posAtom).add(linAtom(off), 1),
@@ -123,6 +143,32 @@ func runSeek(r *core.Run) {
 			k, ok := pinned(fs, wh)
 			key := fmt.Sprintf("%s.Seek store to pos", recvName(fn))
 			if !ok {
+				// one shared store of a target chosen per whence: pos = phi(target_0, target_1, target_2), range-checked once
+				if phi, isPhi := stripConv(st.Val).(*ssa.Phi); isPhi {
+					tv := linOf(phi)
+					lo := entails(fs, tv)
+					hi := entails(fs, linAtom(lenAtom).add(tv, -1))
+					r.Check(lo && hi, recvName(fn)+".Seek shared range check", st.Pos(), "0 <= target <= Len() entailed by the guards",
+						fmt.Sprintf("the guards %v do not imply 0 <= target <= %s for the position that is stored: a target outside the data is accepted", factStrings(fs), lenAtom))
+					for i, e := range phi.Edges {
+						ef := edgeFacts(phi.Block().Preds[i], phi.Block())
+						kk, pinnedOK := pinned(ef, wh)
+						if !pinnedOK {
+							r.Unknown(key, st.Pos(), "a target of the shared store is not chosen under a `whence == k` branch")
+							continue
+						}
+						found[kk] = true
+						w, known := want[kk]
+						kkey := fmt.Sprintf("%s.Seek whence=%d", recvName(fn), kk)
+						if !known {
+							r.Fail(kkey+" target", st.Pos(), fmt.Sprintf("io.Seeker defines whence 0,1,2 only; a target is chosen under whence == %d", kk))
+							continue
+						}
+						r.Check(linOf(e).equal(w), kkey+" target", st.Pos(), "pos = "+linOf(e).String(),
+							fmt.Sprintf("new position is `%s`; io.Seeker requires `%s` for whence %d", linOf(e), w, kk))
+					}
+					continue
+				}
 				r.Unknown(key, st.Pos(), "store to pos is not under a `whence == k` branch")
 				continue
 			}
@@ -169,26 +215,55 @@ func isEOFValue(v ssa.Value) bool {
 
 func runEOFStrict(r *core.Run) {
 	seen := 0
-	for _, fn := range methodsNamed(r, "", "Bytes") {
-		if fn.Signature.Params().Len() != 3 {
+	// in-memory range readers: functions of the root package returning ([]byte, error) that take a length and an
+	// offset (their last two integer parameters), cut a three-index slice out of a []byte that is a receiver field or
+	// a parameter, and can produce io.EOF — the Bytes methods themselves, or a helper they share
+	for _, fn := range allModuleFuncs(r) {
+		if core.RelPkg(fnPkg(fn)) != "parse" || fn.Synthetic != "" || len(fn.Blocks) == 0 {
 			continue
 		}
-		// in-memory implementation: slices a []byte field of the receiver
-		recv := fn.Params[0].Name()
+		sig := fn.Signature
+		if sig.Results().Len() != 2 || !isSliceLike(sig.Results().At(0).Type()) {
+			continue
+		}
+		var ints []*ssa.Parameter
+		for _, p := range fn.Params {
+			if b, ok := p.Type().Underlying().(*types.Basic); ok && b.Kind() == types.Int64 {
+				ints = append(ints, p)
+			}
+		}
+		if len(ints) < 2 {
+			continue
+		}
 		var sl *ssa.Slice
+		hasEOF := false
 		for _, b := range fn.Blocks {
 			for _, in := range b.Instrs {
-				if s, ok := in.(*ssa.Slice); ok && strings.HasPrefix(canon(s.X), recv+".") {
-					sl = s
+				if s, ok := in.(*ssa.Slice); ok && s.Max != nil {
+					root := canon(s.X)
+					isParam := false
+					for _, p := range fn.Params {
+						if root == p.Name() {
+							isParam = true
+						}
+					}
+					if isParam || (fn.Signature.Recv() != nil && strings.HasPrefix(root, fn.Params[0].Name()+".")) {
+						sl = s
+					}
+				}
+				for _, op := range in.Operands(nil) {
+					if *op != nil && isEOFValue(*op) {
+						hasEOF = true
+					}
 				}
 			}
 		}
-		if sl == nil {
+		if sl == nil || !hasEOF {
 			continue
 		}
 		seen++
-		name := recvName(fn)
-		n, off := fn.Params[2].Name(), fn.Params[3].Name()
+		name := fnLabel(fn)
+		n, off := ints[len(ints)-2].Name(), ints[len(ints)-1].Name()
 		dataLen := "len(" + canon(sl.X) + ")"
 		// goal: n - (len - off) - 1 >= 0   (fewer than n bytes remain)
 		goal := linAtom(n).add(linAtom(dataLen), -1).add(linAtom(off), 1).add(linConst(1), -1)
@@ -243,7 +318,7 @@ func runEOFStrict(r *core.Run) {
 			}
 		}
 	}
-	r.Floor("in-memory Bytes implementations", seen, 2)
+	r.Floor("in-memory Bytes implementations", seen, 1)
 }
 
 func stripConv(v ssa.Value) ssa.Value {
@@ -287,6 +362,24 @@ func bitIndexForm(v ssa.Value) (string, int64, bool) {
 	return "", 0, false
 }
 
+// isRecvByteSliceField: v is (a load of) a []byte field of fn's receiver.
+func isRecvByteSliceField(fn *ssa.Function, v ssa.Value) bool {
+	u, ok := v.(*ssa.UnOp)
+	if !ok || u.Op != token.MUL || len(fn.Params) == 0 {
+		return false
+	}
+	fa, ok := u.X.(*ssa.FieldAddr)
+	if !ok || fa.X != ssa.Value(fn.Params[0]) {
+		return false
+	}
+	sl, ok := u.Type().Underlying().(*types.Slice)
+	if !ok {
+		return false
+	}
+	b, ok := sl.Elem().Underlying().(*types.Basic)
+	return ok && b.Kind() == types.Uint8
+}
+
 func runBitIdx(r *core.Run) {
 	for _, tc := range []struct {
 		typ, meth string
@@ -304,7 +397,7 @@ func runBitIdx(r *core.Run) {
 		var accPos token.Pos
 		for _, b := range fn.Blocks {
 			for _, in := range b.Instrs {
-				if ia, ok := in.(*ssa.IndexAddr); ok && strings.HasSuffix(canon(ia.X), ".buf") {
+				if ia, ok := in.(*ssa.IndexAddr); ok && isRecvByteSliceField(fn, ia.X) {
 					a, k, ok := bitIndexForm(ia.Index)
 					if !ok {
 						r.Unknown(key+" access index", ia.Pos(), "byte index is not of the form (pos+k)/8")
@@ -436,6 +529,38 @@ func endianOfCond(v ssa.Value) string {
 	return ""
 }
 
+// orderAt: the byte order that holds in block b according to the comparisons of a ByteOrder value with
+// binary.LittleEndian / binary.BigEndian that guard it ("" if none; BigEndian is the code's default otherwise).
+func orderAt(b *ssa.BasicBlock) string {
+	endian := func(v ssa.Value) string {
+		if mi, ok := v.(*ssa.MakeInterface); ok {
+			if u, ok := mi.X.(*ssa.UnOp); ok {
+				if g, ok := u.X.(*ssa.Global); ok && g.Pkg.Pkg.Path() == "encoding/binary" {
+					return g.Name()
+				}
+			}
+		}
+		return ""
+	}
+	other := map[string]string{"LittleEndian": "BigEndian", "BigEndian": "LittleEndian"}
+	for _, a := range guardsAt(b) {
+		e := endian(a.x)
+		if e == "" {
+			e = endian(a.y)
+		}
+		if e == "" {
+			continue
+		}
+		switch a.op {
+		case token.EQL:
+			return e
+		case token.NEQ:
+			return other[e]
+		}
+	}
+	return ""
+}
+
 func layoutName(m map[int64]int64, width int64) string {
 	le, be := true, true
 	if int64(len(m)) != width {
@@ -521,23 +646,9 @@ func runLayout(r *core.Run) {
 			n++
 			lay := layoutName(m, tc.width)
 			// which byte order does this return belong to?
-			order := "BigEndian" // default branch
-			for p := b; p != nil; p = p.Idom() {
-				if p.Idom() == nil {
-					break
-				}
-				d := p.Idom()
-				if iff, ok := lastInstr(d).(*ssa.If); ok {
-					if e := endianOfCond(iff.Cond); e != "" {
-						if d.Succs[0] == p || d.Succs[0].Dominates(b) && len(d.Succs[0].Preds) == 1 {
-							order = e
-						} else if e == "LittleEndian" {
-							order = "BigEndian"
-						} else {
-							order = "LittleEndian"
-						}
-					}
-				}
+			order := orderAt(b)
+			if order == "" {
+				order = "BigEndian" // the code's default when ByteOrder is not LittleEndian
 			}
 			// the full-read guard must hold on this path: len(data) >= width
 			fs := blockFacts(b)
@@ -641,7 +752,7 @@ func runLayout(r *core.Run) {
 		ok := false
 		for _, in := range wf.Blocks[0].Instrs {
 			if c, isCall := in.(*ssa.Call); isCall && c.Call.IsInvoke() && c.Call.Method.Name() == "AppendUint"+w {
-				if len(c.Call.Args) == 2 && c.Call.Args[1] == wf.Params[1] && canon(c.Call.Args[0]) == wf.Params[0].Name()+".buf" {
+				if len(c.Call.Args) == 2 && c.Call.Args[1] == wf.Params[1] && isRecvByteSliceField(wf, c.Call.Args[0]) {
 					ok = true
 				}
 			}
@@ -677,19 +788,9 @@ func runLayout(r *core.Run) {
 			}
 			n++
 			w24++
-			order := "BigEndian"
-			if d := b.Idom(); d != nil {
-				if iff, ok := lastInstr(d).(*ssa.If); ok {
-					if e := endianOfCond(iff.Cond); e != "" {
-						if d.Succs[0] == b {
-							order = e
-						} else if e == "LittleEndian" {
-							order = "BigEndian"
-						} else {
-							order = "LittleEndian"
-						}
-					}
-				}
+			order := orderAt(b)
+			if order == "" {
+				order = "BigEndian"
 			}
 			lay := layoutName(m, 3)
 			r.Check(lay == order, "WriteUint24 "+order+" layout", wf.Pos(), fmt.Sprint(m), fmt.Sprintf("bytes are emitted as position->shift %v on the %s path, which is %s", m, order, lay))
